@@ -350,7 +350,7 @@ def run_C13(run):
     stats = par([lambda m=m, fl=fl: run.build_trace("tr_C13", m, fl) for m, fl in cfgs])
     trace_cov(run, stats)
     gens = [os.path.join(run.dir, m + ".v") for m, _ in cfgs if os.path.exists(os.path.join(run.dir, m + ".v"))]
-    run.prove(gens, [], ["C13/P_C13.v", "C13/P_C13_cfg.v", "C13/P_C13_dual.v"], "C13/Properties_C13.v")
+    run.prove(gens, [], ["C13/P_C13.v", "C13/P_C13_cfg.v", "C13/P_C13_dual.v", "C13/P_C13_mix.v"], "C13/Properties_C13.v")
     fails = oracle_sweep(run, "C13", [("default", []), ("wxyz", ["-DGLM_FORCE_QUAT_DATA_WXYZ"]), ("xyzw", ["-DGLM_FORCE_QUAT_DATA_XYZW"])], run.tier)
     run.fails = run.triage(fails)
     run.assumptions = ["real-number semantics: acos/sin/cos are the real functions; the 'no NaN' statement is the real-valued guard (acos argument in [0,1-eps], sin(theta) <> 0) plus the assumption that libm's acos/sin return non-NaN values on in-range arguments",
